@@ -72,8 +72,11 @@ func (d *uintDecoder) decodeStreamByte(s *Stream) ([]byte, error) {
 			continue
 		case '0':
 			s.cursor++
-			if s.char() == nul {
-				s.read()
+			for s.char() == nul {
+				// (a Read may deliver nothing without being at the end of the input)
+				if !s.read() {
+					break
+				}
 			}
 			// in a stream a digit after the leading zero starts the next value;
 			// a fraction or exponent means the literal is not an integer
